@@ -23,6 +23,7 @@ Suppressions:
     - misc,assignment: Node type alias when tree-sitter optional dependency unavailable
 """
 
+import re
 from typing import Any
 
 try:
@@ -64,12 +65,22 @@ def has_test_attribute(function_node: Node) -> bool:
     """
     prev_sibling = _skip_comments(function_node.prev_sibling)
     while prev_sibling is not None and prev_sibling.type == "attribute_item":
-        text = _get_node_text(prev_sibling)
-        # #[cfg(not(test))] marks code that is compiled only OUTSIDE tests
-        if "test" in text and "not(test)" not in text.replace(" ", ""):
+        if _is_test_attribute(_get_node_text(prev_sibling)):
             return True
         prev_sibling = _skip_comments(prev_sibling.prev_sibling)
     return False
+
+
+_TEST_ATTRIBUTE = re.compile(r"#\[(?:(?:\w+::)*test(?:\(.*\))?|cfg\(test\))\]", re.DOTALL)
+
+
+def _is_test_attribute(text: str) -> bool:
+    """Check for #[test], #[<path>::test] (tokio::test, ...) or #[cfg(test)].
+
+    An attribute that merely mentions the word (#[cfg(not(test))], #[cfg_attr(test, ...)],
+    #[doc = "... test ..."]) does not mark test code.
+    """
+    return _TEST_ATTRIBUTE.fullmatch("".join(text.split())) is not None
 
 
 def has_cfg_test_attribute(mod_node: Node) -> bool:
